@@ -68,6 +68,82 @@ def _strides_and_widths(ctx: Ctx, funcs: list, of: str | None = None) -> "tuple[
     return steps, widths
 
 
+def _computed_chunking(ctx: Ctx, funcs: list):
+    """A `range(0, len(X), S)` walk cutting `X[i : i + W]` with S, W arithmetic in len(X): fold S and W for every length.
+    Returns (function, range node, 'bytes'|'hex digits', [(L, W(L), S(L)), ...]) or None."""
+    from .common import expand as _exp
+
+    for g, n in _pool(funcs):
+        if not (isinstance(n, ast.Call) and norm(n.func) == "range" and len(n.args) == 3 and isinstance(n.args[1], ast.Call) and norm(n.args[1].func) == "len" and n.args[1].args and isinstance(n.args[1].args[0], ast.Name)):
+            continue
+        X = n.args[1].args[0].id
+        holder = getattr(n, "parent", None)
+        var = holder.target.id if isinstance(holder, (ast.comprehension, ast.For)) and isinstance(holder.target, ast.Name) else None
+        if var is None:
+            continue
+        scope = getattr(holder, "parent", None) if isinstance(holder, ast.comprehension) else holder
+        sl = [x for x in ast.walk(scope) if isinstance(x, ast.Subscript) and isinstance(x.value, ast.Name) and x.value.id == X and isinstance(x.slice, ast.Slice) and x.slice.lower is not None and norm(x.slice.lower) == var and isinstance(x.slice.upper, ast.BinOp) and isinstance(x.slice.upper.op, ast.Add)]
+        if not sl:
+            continue
+        up = sl[0].slice.upper
+        wexpr = up.right if norm(up.left) == var else up.left
+        # the unit: bytes if the slice is hexlified afterwards, hex digits if X already is hex text
+        par = getattr(sl[0], "parent", None)
+        unit = "bytes" if isinstance(par, ast.Attribute) and par.attr == "hex" else "hex digits"
+
+        def ev(e: ast.AST, L: int, depth: int = 0):
+            import math
+
+            if depth > 12:
+                raise ValueError("depth")
+            if isinstance(e, ast.Constant) and isinstance(e.value, (int, float)) and not isinstance(e.value, bool):
+                return e.value
+            if isinstance(e, ast.Call) and norm(e.func) == "len" and e.args and norm(e.args[0]) == X:
+                return L
+            if isinstance(e, ast.Call) and norm(e.func) in ("min", "max", "int", "math.ceil", "ceil", "math.floor", "floor", "round", "abs"):
+                a = [ev(x, L, depth + 1) for x in e.args]
+                return {"min": min, "max": max, "int": lambda *v: int(v[0]), "math.ceil": lambda *v: math.ceil(v[0]), "ceil": lambda *v: math.ceil(v[0]), "math.floor": lambda *v: math.floor(v[0]), "floor": lambda *v: math.floor(v[0]), "round": lambda *v: round(v[0]), "abs": lambda *v: abs(v[0])}[norm(e.func)](*a)
+            if isinstance(e, ast.Call) and norm(e.func) == "divmod":
+                a, b = (ev(x, L, depth + 1) for x in e.args)
+                return divmod(a, b)
+            if isinstance(e, ast.Subscript) and isinstance(e.slice, ast.Constant):
+                return ev(e.value, L, depth + 1)[e.slice.value]
+            if isinstance(e, ast.UnaryOp) and isinstance(e.op, ast.USub):
+                return -ev(e.operand, L, depth + 1)
+            if isinstance(e, ast.BinOp):
+                a, b = ev(e.left, L, depth + 1), ev(e.right, L, depth + 1)
+                ops = {ast.Add: lambda: a + b, ast.Sub: lambda: a - b, ast.Mult: lambda: a * b, ast.FloorDiv: lambda: a // b, ast.Div: lambda: a / b, ast.Mod: lambda: a % b, ast.RShift: lambda: a >> b, ast.LShift: lambda: a << b}
+                return ops[type(e.op)]()
+            if isinstance(e, ast.IfExp):
+                return ev(e.body, L, depth + 1) if ev(e.test, L, depth + 1) else ev(e.orelse, L, depth + 1)
+            if isinstance(e, ast.Compare) and len(e.ops) == 1:
+                a, b = ev(e.left, L, depth + 1), ev(e.comparators[0], L, depth + 1)
+                return {ast.Lt: a < b, ast.LtE: a <= b, ast.Gt: a > b, ast.GtE: a >= b, ast.Eq: a == b, ast.NotEq: a != b}[type(e.ops[0])]
+            if isinstance(e, ast.Name):
+                from .common import single_defs
+
+                d = single_defs(g.node).get(e.id)
+                if d is not None:
+                    return ev(d, L, depth + 1)
+                k = _fold_or_none(ctx, g, e)
+                if isinstance(k, (int, float)):
+                    return k
+            k = _fold_or_none(ctx, g, e)  # a module constant
+            if isinstance(k, (int, float)) and not isinstance(k, bool):
+                return k
+            raise ValueError(f"unsupported: {norm(e)[:40]}")
+
+        rows = []
+        try:
+            top = 41 * 12 if unit == "bytes" else 82 * 12
+            for L in range(1, top + 1) if unit == "bytes" else range(2, top + 1, 2):
+                rows.append((L, ev(wexpr, L), ev(n.args[2], L)))
+        except (ValueError, ZeroDivisionError, KeyError, TypeError):
+            return None
+        return g, n, unit, rows
+    return None
+
+
 def _half_len(e: ast.expr, name: str) -> bool:
     """int(len(name) / 2)  |  len(name) // 2  |  len(name) >> 1"""
     if isinstance(e, ast.Call) and norm(e.func) == "int" and len(e.args) == 1:
@@ -203,7 +279,31 @@ def check(ctx: Ctx) -> list[RuleResult]:
     # the chunking of the hex blob: a `range(0, len(blob), step)` walk cutting `blob[i : i + width]`, wherever it is written
     c_steps, c_widths = _strides_and_widths(ctx, [g for g in enc_scope if g not in pack_scope])
     if not c_steps or not c_widths:
-        raise AnalysisError("full_sched_to_fragz: the chunking loop (range step / slice width) was not found")
+        # a computed chunk size (e.g. "spread the blob evenly"): the width and the step are arithmetic in len(blob) only, so they are
+        # folded for every blob length up to 12 full fragments and compared with what a frame can carry - finite constant folding
+        # of the source expression, nothing is run
+        comp = _computed_chunking(ctx, [g for g in enc_scope if g not in pack_scope])
+        if comp is None:
+            raise AnalysisError("full_sched_to_fragz: the chunking loop (range step / slice width) was not found")
+        g_c, rng_c, unit, worst = comp
+        schema_c = ctx.const("ramses_tx.ramses", "CODES_SCHEMA")
+        bnd = [re.search(r"\{2,(\d+)\}\$", schema_c["0404"][v]) for v in (" W", "RP")]
+        cap_hex = min(int(b.group(1)) for b in bnd if b) if all(bnd) else None
+        if cap_hex is None:
+            raise AnalysisError("0404 regex bound not found")
+        cap = cap_hex // 2 if unit == "bytes" else cap_hex
+        r3.instances += 1
+        r3.nontrivial += 1
+        L_bad = next(((L, w, st) for L, w, st in worst if w > cap or w != st or w < 1), None)
+        if L_bad:
+            L, w, st = L_bad
+            r3.fail("0404:chunk-vs-regex", g_c.loc(rng_c), f"the fragment size is computed from the blob length: for a blob of {L} {unit} the slices are {w} wide (step {st}), but a 0404 fragment may carry at most {cap} {unit} ({cap_hex} hex digits in the W/RP regexes): that fragment does not fit a frame / the decoder rejects it")
+        else:
+            r3.ok({"computed_chunk": f"<= {cap} {unit} for every blob length up to {worst[-1][0]}", "step_equals_width": True})
+        c_steps, c_widths = [cap_hex], [cap_hex]
+        _skip_const_chunk = True
+    else:
+        _skip_const_chunk = False
     lc = next((n for _g, n in _pool(enc_scope) if isinstance(n, ast.Call) and norm(n.func) == "range" and len(n.args) == 3), None)
     step = c_steps[0] if len(set(c_steps)) == 1 else None
     width = c_widths[0] if len(set(c_widths)) == 1 else None
@@ -211,7 +311,9 @@ def check(ctx: Ctx) -> list[RuleResult]:
     r3.instances += 1
     r3.nontrivial += 1
     bounds = {v: re.search(r"\{2,(\d+)\}\$", schema["0404"][v]) for v in (" W", "RP")}
-    if step == width and all(b and int(b.group(1)) == width for b in bounds.values()):
+    if _skip_const_chunk:
+        r3.ok({"chunk": "computed (see above)"})
+    elif step == width and all(b and int(b.group(1)) == width for b in bounds.values()):
         r3.ok({"chunk": width, "regex_bound": {v: int(b.group(1)) for v, b in bounds.items()}})  # type: ignore[union-attr]
     else:
         r3.fail("0404:chunk-vs-regex", enc.loc(lc), f"fragments are cut every {step}/{width} hex digits but the 0404 W/RP regexes allow {[b.group(1) if b else None for b in bounds.values()]}")
@@ -440,4 +542,39 @@ def check(ctx: Ctx) -> list[RuleResult]:
         else:
             r7.ok({"function": g.short, "memoised": True, "returns": "immutable values only"})
     out.append(r7)
+
+    # ---- R8 ---------------------------------------------------------------------------
+    # the 0404 header is seven bytes at fixed offsets and the fragment is whatever follows: a header field (and its sentinel values)
+    # is read at its own offset from the start - a test placed relative to the *end* of the payload lands in the fragment's data for
+    # every frame that carries one, so a fragment that happens to end in the sentinel byte is misread or rejected
+    r8 = RuleResult("R8", "0404 header fields are read at fixed offsets", "every slice/index of the payload in parser_0404 is anchored at a non-negative constant offset; only the fragment slice is open-ended", min_instances=4)
+    p0404 = repo.func("ramses_tx.parsers.parser_0404")
+    pay = p0404.node.args.args[0].arg
+    hdr_len = 14
+    n8 = 0
+    for n in own_nodes(p0404.node):
+        if isinstance(n, ast.Subscript) and isinstance(n.value, ast.Name) and n.value.id == pay:
+            n8 += 1
+            r8.instances += 1
+            r8.nontrivial += 1
+            sl = n.slice
+            lo = hi = None
+            ok8 = True
+            if isinstance(sl, ast.Slice):
+                lo = _fold_or_none(ctx, p0404, sl.lower) if sl.lower is not None else 0
+                hi = _fold_or_none(ctx, p0404, sl.upper) if sl.upper is not None else None
+                if not isinstance(lo, int) or lo < 0 or (sl.upper is not None and (not isinstance(hi, int) or hi < 0)):
+                    ok8 = False
+                elif sl.upper is None and lo < hdr_len and lo != 0:
+                    ok8 = False  # an open-ended slice that starts inside the header mixes header and data
+            else:
+                k = _fold_or_none(ctx, p0404, sl)
+                ok8 = isinstance(k, int) and k >= 0
+            if ok8:
+                r8.ok({"read": norm(n), "anchored_at": lo if lo is not None else norm(sl)})
+            else:
+                r8.fail(f"parser_0404:end-relative-read:{norm(n)}", p0404.loc(n), f"`{norm(n)}` in parser_0404 is placed relative to the end of the payload (or runs from inside the header to the end): for a frame that carries a fragment this reads the fragment's data, so a fragment whose last byte equals a header sentinel (e.g. FF) is misread or rejected although it is a legal fragment")
+    if n8 < 4:
+        raise AnalysisError(f"parser_0404: only {n8} reads of the payload found")
+    out.append(r8)
     return out
